@@ -367,6 +367,9 @@ func term(v ssa.Value, depth int) string {
 
 // spillOfParam: al is the cell a parameter is copied into on entry and is
 // never written again (neither as a whole nor field by field).
+// SpillOfParam is spillOfParam for rules.
+func SpillOfParam(al *ssa.Alloc) *ssa.Parameter { return spillOfParam(al) }
+
 func spillOfParam(al *ssa.Alloc) *ssa.Parameter {
 	if al.Referrers() == nil {
 		return nil
@@ -1453,6 +1456,17 @@ func (il *Inliner) call(in ssa.Instruction, t Tokens) []Tokens {
 			}
 			for _, tt := range ts {
 				for i, kind := range kinds {
+					if kind == "unk" {
+						// `return g(...)`: what g returned on this path is what h returns
+						if c2, j, ok := resultOf(RetVal(r, i)); ok {
+							k2 := retKey(c2, j)
+							for _, cand := range []string{"nil", "nonnil", "true", "false"} {
+								if tt[k2+cand] {
+									kind = cand
+								}
+							}
+						}
+					}
 					tt[retKey(call, i)+kind] = true
 				}
 				out, _ = out.add(tt)
